@@ -67,7 +67,8 @@ mod imp {
                       /// calls itself until the frame limit is reached
                       Loop }
     #[derive(Clone, Debug, PartialEq)]
-    pub struct FnDef { pub tag: String, pub kind: FnKind }
+    /// home: the name the function was declared under (every call passes arg_of(home), also through a variable that holds it)
+    pub struct FnDef { pub home: String, pub tag: String, pub kind: FnKind }
 
     #[derive(Clone, Debug, PartialEq)]
     pub enum Stmt {
@@ -75,6 +76,8 @@ mod imp {
         SetLit { name: String, val: i64 },
         AddTo { name: String, k: i64 },
         Def { name: String, def: FnDef },
+        /// `let mut h = f` (fresh) / `h = f`: a variable holds the function value f denotes right now
+        CopyFn { dst: String, src: String, fresh: bool },
         PrintVar { name: String },
         PrintCall { f: String, arg: i64 },
         PrintApply { a: String, f: String, arg: i64 },   // println(a(f, arg)): a takes a function value and has no globals
@@ -109,6 +112,7 @@ mod imp {
                 FnKind::Bump0(g) => format!("fn {}(x) {{ println(\"{}\"); {} = {} + x; let q = 0 }}", name, def.tag, g, g),
                 FnKind::Loop => format!("fn {}(x) {{ return {}({}) + 1 }}", name, name, arg_of(name)),
             },
+            Stmt::CopyFn { dst, src, fresh } => if *fresh { format!("let mut {} = {}", dst, src) } else { format!("{} = {}", dst, src) },
             Stmt::PrintVar { name } => format!("println({})", name),
             Stmt::PrintCall { f, arg } => format!("println({}({}))", f, arg),
             Stmt::PrintApply { a, f, arg } => format!("println({}({}, {}))", a, f, arg),
@@ -153,6 +157,7 @@ mod imp {
                     Stmt::SetLit { name, val } => { let m = self.vars[name].1; self.vars.insert(name.clone(), (Val::Int(*val), m)); }
                     Stmt::AddTo { name, k } => { if let (Val::Int(n), m) = self.vars[name].clone() { self.vars.insert(name.clone(), (Val::Int(n + k), m)); } }
                     Stmt::Def { name, def } => { self.vars.remove(name); self.fns.insert(name.clone(), def.clone()); }
+                    Stmt::CopyFn { dst, src, .. } => { if let Some(d) = self.fns.get(src).cloned() { self.vars.remove(dst); self.fns.insert(dst.clone(), d); } }
                     Stmt::PrintVar { name } => { out.push_str(&self.vars[name].0.show()); out.push('\n'); }
                     Stmt::PrintLit { text } => { out.push_str(text); out.push('\n'); }
                     Stmt::PrintCall { f, arg } | Stmt::PrintApply { f, arg, .. } => match self.call(f, *arg, &mut out) {
@@ -268,6 +273,7 @@ mod imp {
             if !av.is_empty() && self.rng.chance(1, 2) { let v = self.pick(&av); stmts.insert(0, Stmt::PrintVar { name: v }); }
             Step::Input { stmts, expect: Expect::Ok }
         }
+        pub fn arg_for(&self, f: &str) -> i64 { self.o.fns.get(f).map(|d| arg_of(&d.home)).unwrap_or(arg_of(f)) }
         fn fresh(&mut self, p: &str) -> String { self.n += 1; format!("{}{}", p, self.n) }
         fn int_vars(&self, mutable_only: bool) -> Vec<String> {
             let mut v: Vec<String> = self.o.vars.iter().filter(|(k, (val, m))| matches!(val, Val::Int(_)) && (!mutable_only || *m) && k.as_str() != "zero" && !k.starts_with("junk"))
@@ -306,7 +312,7 @@ mod imp {
                     defined_here.insert(name.clone());
                     let tag = self.fresh("T");
                     let t = self.pick(&callees);
-                    return Some(Stmt::Def { name, def: FnDef { tag, kind: FnKind::CallF(t, 0) } });
+                    return Some(Stmt::Def { name: name.clone(), def: FnDef { home: name.clone(), tag, kind: FnKind::CallF(t, 0) } });
                 }
                 // a function without `return` that mutates a global (names b<N>: never redefined, never a callee of c<N>)
                 if !mv.is_empty() && self.rng.chance(1, 6) {
@@ -314,13 +320,13 @@ mod imp {
                     defined_here.insert(name.clone());
                     let tag = self.fresh("T");
                     let gname = self.pick(&mv); assigned_here.insert(gname.clone());
-                    return Some(Stmt::Def { name, def: FnDef { tag, kind: FnKind::Bump0(gname) } });
+                    return Some(Stmt::Def { name: name.clone(), def: FnDef { home: name.clone(), tag, kind: FnKind::Bump0(gname) } });
                 }
                 // a function that recurses until the frame limit (names r<N>)
                 if self.rng.chance(1, 14) {
                     let name = self.fresh("r");
                     defined_here.insert(name.clone());
-                    return Some(Stmt::Def { name, def: FnDef { tag: String::new(), kind: FnKind::Loop } });
+                    return Some(Stmt::Def { name: name.clone(), def: FnDef { home: name.clone(), tag: String::new(), kind: FnKind::Loop } });
                 }
                 let fnames: Vec<String> = fs.iter().filter(|n| n.starts_with('f')).cloned().collect();
                 let name = if !fnames.is_empty() && self.rng.chance(1, 3) { self.pick(&fnames) } else { self.fresh("f") };
@@ -332,21 +338,37 @@ mod imp {
                     else if k < 6 { FnKind::ReadG(self.pick(&iv)) }
                     else if k < 8 && !mv.is_empty() { let gname = self.pick(&mv); assigned_here.insert(gname.clone()); FnKind::BumpG(gname) }
                     else { FnKind::Boom };
-                Some(Stmt::Def { name, def: FnDef { tag, kind } })
-            } else if r < 50 {
+                Some(Stmt::Def { name: name.clone(), def: FnDef { home: name.clone(), tag, kind } })
+            } else if r < 47 {
+                // a variable that holds a function value: created from, or rebound to, what a function name denotes now
+                let srcs: Vec<String> = { let mut v: Vec<String> = self.o.fns.iter().filter(|(k, d)| k.starts_with('f') && matches!(d.kind, FnKind::AddK(_) | FnKind::ReadG(_) | FnKind::BumpG(_))).map(|(k, _)| k.clone()).collect(); v.sort(); v };
+                if srcs.is_empty() { return None; }
+                let hs: Vec<String> = { let mut v: Vec<String> = self.o.fns.keys().filter(|k| k.starts_with('h')).cloned().collect(); v.sort(); v };
+                let src = self.pick(&srcs);
+                if !hs.is_empty() && self.rng.chance(2, 3) {
+                    let dst = self.pick(&hs);
+                    if defined_here.contains(&dst) { return None; }
+                    assigned_here.insert(dst.clone());
+                    Some(Stmt::CopyFn { dst, src, fresh: false })
+                } else {
+                    let dst = self.fresh("h");
+                    defined_here.insert(dst.clone());
+                    Some(Stmt::CopyFn { dst, src, fresh: true })
+                }
+            } else if r < 52 {
                 // a higher-order function without globals of its own, and calls through it
                 let appliers: Vec<String> = { let mut v: Vec<String> = self.o.fns.iter().filter(|(_, d)| d.kind == FnKind::Apply).map(|(k, _)| k.clone()).collect(); v.sort(); v };
                 if appliers.is_empty() || (appliers.len() < 2 && self.rng.chance(1, 4)) {
                     let name = self.fresh("a");
                     defined_here.insert(name.clone());
-                    Some(Stmt::Def { name, def: FnDef { tag: String::new(), kind: FnKind::Apply } })
+                    Some(Stmt::Def { name: name.clone(), def: FnDef { home: name.clone(), tag: String::new(), kind: FnKind::Apply } })
                 } else if !fs.is_empty() {
-                    let f = self.pick(&fs); let arg = arg_of(&f); Some(Stmt::PrintApply { a: self.pick(&appliers), f, arg })
+                    let f = self.pick(&fs); let arg = self.arg_for(&f); Some(Stmt::PrintApply { a: self.pick(&appliers), f, arg })
                 } else { None }
             } else if r < 62 && !av.is_empty() {
                 Some(Stmt::PrintVar { name: self.pick(&av) })
             } else if r < 92 && !fs.is_empty() {
-                let f = self.pick(&fs); let arg = arg_of(&f); Some(Stmt::PrintCall { f, arg })
+                let f = self.pick(&fs); let arg = self.arg_for(&f); Some(Stmt::PrintCall { f, arg })
             } else {
                 Some(Stmt::PrintLit { text: self.fresh("p") })
             }
@@ -365,7 +387,7 @@ mod imp {
             if first {
                 return Step::Input { stmts: vec![Stmt::Let { name: "zero".into(), mutable: true, val: Val::Int(0) },
                                                  Stmt::Let { name: "g0".into(), mutable: true, val: Val::Int(7) },
-                                                 Stmt::Def { name: "f0".into(), def: FnDef { tag: "T0".into(), kind: FnKind::AddK(1) } }], expect: Expect::Ok };
+                                                 Stmt::Def { name: "f0".into(), def: FnDef { home: "f0".into(), tag: "T0".into(), kind: FnKind::AddK(1) } }], expect: Expect::Ok };
             }
             // the import of an input that was rejected at compile time must not have taken effect
             if let Some(st) = self.queued.pop() {
@@ -383,8 +405,8 @@ mod imp {
             if r < 14 && !fs_all.is_empty() {
                 // host call; a call into a failing function only when asked for (it leaves frames behind)
                 let booms: Vec<String> = fs_all.iter().filter(|f| self.fails(&self.o.fns[*f])).cloned().collect();
-                let f = if !booms.is_empty() && self.rng.chance(1, 3) { self.pick(&booms) } else if !fs.is_empty() { self.pick(&fs) } else { return self.step(false, false) };
-                let arg = arg_of(&f); return Step::Host { f, arg, cached: self.rng.chance(1, 3), extra: self.rng.chance(1, 8) };
+                let f = if !booms.is_empty() && self.rng.chance(1, 2) { self.pick(&booms) } else if !fs.is_empty() { self.pick(&fs) } else { return self.step(false, false) };
+                let arg = self.arg_for(&f); return Step::Host { f, arg, cached: self.rng.chance(1, 3), extra: self.rng.chance(1, 8) };
             }
             if r < 17 { return Step::Host { f: self.fresh("nosuch"), arg: 1, cached: self.rng.chance(1, 2), extra: false }; }
             if r < 22 {
@@ -396,7 +418,7 @@ mod imp {
                     // (the function's layout is still loaded when the global is set)
                     let users: Vec<String> = { let mut v: Vec<String> = self.o.fns.iter().filter(|(_, d)| matches!(&d.kind, FnKind::ReadG(g) | FnKind::BumpG(g) | FnKind::Bump0(g) if *g == name)).map(|(k, _)| k.clone()).collect(); v.sort(); v };
                     if !users.is_empty() && self.rng.chance(2, 3) {
-                        let f = self.pick(&users); let arg = arg_of(&f);
+                        let f = self.pick(&users); let arg = self.arg_for(&f);
                         let cached = self.rng.chance(1, 3);
                         self.queued.push(Step::Host { f: f.clone(), arg, cached, extra: false });
                         self.queued.push(Step::HostSet { name, val });
@@ -451,10 +473,10 @@ mod imp {
                 if self.rng.chance(1, 2) { st.push(Stmt::Let { name: self.fresh("junk"), mutable: true, val: Val::Int(5) }); }
                 if self.rng.chance(1, 2) && !fs.is_empty() {
                     let pure: Vec<String> = fs.iter().filter(|f| matches!(self.o.fns[*f].kind, FnKind::AddK(_) | FnKind::ReadG(_))).cloned().collect();
-                    if !pure.is_empty() { let f = self.pick(&pure); let arg = arg_of(&f); st.push(Stmt::PrintCall { f, arg }); }
+                    if !pure.is_empty() { let f = self.pick(&pure); let arg = self.arg_for(&f); st.push(Stmt::PrintCall { f, arg }); }
                 }
                 let booms: Vec<String> = fs_all.iter().filter(|f| self.fails(&self.o.fns[*f])).cloned().collect();
-                if !booms.is_empty() && self.rng.chance(1, 2) { let f = self.pick(&booms); let arg = arg_of(&f); st.push(Stmt::PrintCall { f, arg }); }
+                if !booms.is_empty() && self.rng.chance(1, 2) { let f = self.pick(&booms); let arg = self.arg_for(&f); st.push(Stmt::PrintCall { f, arg }); }
                 else { st.push(Stmt::Raw { text: "println(1 / zero)".into() }); }
                 st.push(Stmt::PrintLit { text: self.fresh("unreached") });
                 return Step::Input { stmts: st, expect: Expect::RuntimeError };
@@ -726,6 +748,8 @@ mod imp {
                                                      s_body.push(format!("IDef {}%N {}%N", names.id(name), fid)); }
                                         None => sx.fail(format!("no nested function {}", name)),
                                     },
+                                    Stmt::CopyFn { dst, src, .. } => { s_body.push(format!("ICopy {}%N {}%N", names.id(dst), names.id(src)));
+                                        if let Some(l) = fn_lay.get(src).cloned() { fn_lay.insert(dst.clone(), l); } }
                                     Stmt::PrintVar { name } => s_body.push(format!("IPrint {}%N 0", names.id(name))),
                                     Stmt::PrintLit { text } => s_body.push(format!("IOut {}", zc(line_code(text)))),
                                     Stmt::Needs { .. } => {}
@@ -744,6 +768,7 @@ mod imp {
                                     Stmt::AddTo { name, k } => ops.push(format!("OAddIdx {} {}", top_idx(name, &mut problems), zc(*k))),
                                     Stmt::Def { name, def } => { if let Some(l) = unit_lay.get(name) { fn_lay.insert(name.clone(), l.clone()); }
                                         ops.push(format!("OSetIdx {} {}", top_idx(name, &mut problems), 2_000_000 + def.tag.get(1..).and_then(|t| t.parse::<i64>().ok()).unwrap_or(0))) }
+                                    Stmt::CopyFn { dst, .. } => ops.push(format!("OSetIdx {} 2999999", top_idx(dst, &mut problems))),
                                     Stmt::PrintVar { name } => ops.push(format!("OPrintIdx {} 0", top_idx(name, &mut problems))),
                                     Stmt::PrintLit { .. } => {}
                                     Stmt::Needs { .. } => {}
